@@ -110,7 +110,9 @@ CHECKS = {'C01': {'level': 'exploration',
                  'operations on EXISTING rows may fail too (the call reports the error, the stores stay buffered and commit); the harness record '
                  'codec has an optional field that its decoder leaves alone when absent (like encoding/json with omitted fields); string columns may '
                  'use a "set or append" merge that returns a sub-slice of its delta | since round 7: a dropped index name may come back on another '
-                 'column / with another rule',
+                 'column / with another rule | since round 8: DropColumn of a value column that carries no live index (an index dropped through '
+                 'DropColumn(indexName) is still attached to it inside the library, and its name may be in use again on another column); the indexes '
+                 'are checked right afterwards',
          'assumptions': ["index predicates decode the value with the column's own width (Reader.Int on an int16 column is zero-extended by design)",
                          'quiescent checks only (no transaction is committing while an index is read)'],
          'tests': [{'run': '^TestC03$',
@@ -164,7 +166,9 @@ CHECKS = {'C01': {'level': 'exploration',
                  'from commit to commit (every commit is for another block; IDs only grow per block) | every decode (Buffer.ReadFrom, '
                  'Commit.ReadFrom, commit.Open(...).Range) reads from one of four legal io.Readers chosen by the size of the encoding and the '
                  'variant: all at once, one byte per Read, pieces of 1,2,3,5,8,13 bytes, or half of what is asked with the last data arriving '
-                 'together with io.EOF - a decoder that assumes a Read fills its buffer fails the round trip',
+                 'together with io.EOF - a decoder that assumes a Read fills its buffer fails the round trip | a Buffer.Clone and the buffer inside '
+                 'a Commit.Clone must read back the written sequence also AFTER the original buffer was Reset and filled with other operations (what '
+                 'happens when a transaction page returns to the pool while a logger, channel consumer or snapshot recorder still holds the clone)',
          'assumptions': ['offsets < 2^31 and byte strings <= 65535 bytes (format limits)',
                          'merge operations always carry a value (as every caller in kelindar/column does)'],
          'tests': [{'run': '^TestC05Exhaustive$', 'timeout': {'quick': 600, 'thorough': 3000}, 'env': {'GOMAXPROCS': 1}},
